@@ -294,7 +294,7 @@ partial def loop (i o : IO.FS.Stream) : IO Unit := do
   let line ← i.getLine
   if line.isEmpty then return ()
   let ws := (line.trimAscii.toString.splitOn " ").filter (· ≠ "")
-  let r ← try handle ws catch e => pure ("ioerr " ++ toString e)
+  let r ← try handle ws catch e => pure ("ioerr " ++ (toString e).replace "\n" " ")
   o.putStrLn r
   loop i o
 
